@@ -853,8 +853,19 @@ def run_case(h, case, twin, tier, seed, budget):
                 out['witness_bad'].append({'error': rep.error, 'model': res['witness'],
                                            'tb': getattr(rep, 'error_tb', '')[-1500:]})
             elif bad and twin is None:
-                out['witness_bad'].append({'held_but_fails_in_float': bad[:3],
-                                           'model': res['witness']})
+                # the obligation is valid over the reals on this path (the solver said so),
+                # yet the path's own witness fails it on the real, unshimmed code: what the
+                # real-number encoding abstracts (dtype, IEEE rounding) decides it.  The
+                # failure is concrete and reproduces by construction: reported as a
+                # violation of the obligation, labelled as found by the witness replay.
+                for l, d in bad[:3]:
+                    out['labels'].setdefault(l, {'held': 0, 'violated': 0, 'inconclusive': 0})
+                    out['labels'][l]['violated'] += 1
+                    out['violations'].append({
+                        'label': l, 'model': res['witness'],
+                        'sym_detail': 'held over the reals on this path; fails on the real '
+                                      'float code for the path witness (dtype/rounding)',
+                        'replay_detail': d, 'case': case, 'twin': twin, 'harness': h.name})
             else:
                 out['witness_ok'] += 1
     out['wall_s'] = time.time() - t0
